@@ -72,6 +72,14 @@ def st_case(draw, threaded=None, ops=graphs.ALL_OPS, multiprocess=False):
     nchunks = sum(len(c) + 1 for c in cutsB.values()) + sum(len(c) + 1 for c in cutsA.values())
     if graphs.has_lag(spec) or graphs.has_diamond(spec):
         cap = nchunks + 3
+        if not multiprocess and draw(st.integers(0, 2)) == 0:
+            # the other documented way of giving a laggy graph enough room: a small context-wide capacity and the
+            # Plugin.max_messages override on every plugin (only mailboxes of computed data types honour it, so nothing
+            # may come from storage in this variant)
+            cap = draw(st.integers(1, 3))
+            stored = []
+            for n in spec["nodes"]:
+                n["max_messages"] = nchunks + 3
     else:
         cap = draw(st.sampled_from([1, 2, 3, 4, nchunks + 3]))
     cfg = dict(processor=proc, max_workers=draw(st.sampled_from([1, 1, 2, 3])), allow_lazy=draw(st.booleans()),
@@ -306,6 +314,8 @@ def _run_case(d, spec, unit, token, rt, path):
         classes_hit.append(f"workers{cfg['max_workers']}")
         if S.preemptions:
             classes_hit.append("preempted")
+    if any(n.get("max_messages") is not None for n in spec["nodes"]):
+        classes_hit.append("capacity_by_plugin_max_messages")
     if any(a == b for cs in d["cutsB"].values() for a, b in zip([0] + cs, cs + [d["t1"]])):
         classes_hit.append("zero_duration_chunk")
     if n_stored:
